@@ -80,18 +80,26 @@ def run(rep, tier, seed, replay):
             spans = re.findall(r"(\d+)\+(\d+)=", s)
             if spans and (nonascii or any(c in e for c in "{<")):
                 rep.distinct.add(e)
-            if kind == "parse":
-                # the two error shapes of the parser: locations from the model, width = the character there
-                if mo["ok"] or mo.get("err") != "parse":
-                    rep.violation("correspondence", "parse: the crate rejects an expression the parser model accepts", {"expr": e}, impl=i["raw"][:200], model=mo["raw"][:200])
+            # error identity: kind and every location with its width, from the parser model (two error shapes)
+            # and from the rule checker model (queue order decides which violation is reported first)
+            if kind == "parse" or kind.startswith("rule:"):
+                if mo["ok"] or mo.get("err") != kind or mo.get("spans") != i.get("spans"):
+                    if kind == "rule:oversized" and mo.get("err") == kind:
+                        pass
+                    rep.violation("correspondence", "error identity: kind and spans of the build error differ from the parser / rule checker model", {"expr": e}, impl=i["raw"][:200], model=mo["raw"][:200])
                 else:
-                    locs = [int(x) for x in re.findall(r"\d+", mo["raw"].split("parse", 1)[1])]
-                    want = [(l, char_width_at(e, l)) for l in locs]
-                    got = [(int(a), int(b)) for a, b in spans]
-                    if want != got:
-                        rep.violation("correspondence", "parse error locations: the crate's spans differ from the parser model's", {"expr": e}, impl=got, model=want)
-                    else:
-                        rep.stats["parse-error-spans-equal-model"] += 1
+                    rep.stats["error-kind-and-spans-equal-model"] += 1
+                # every reported location is a character boundary inside the expression (decided here, proved for parse errors)
+                eb = e.encode("utf-8")
+                for a, b in spans:
+                    a, b = int(a), int(b)
+                    ok = a + b <= len(eb)
+                    try:
+                        eb[:a].decode("utf-8"); eb[a:a + b].decode("utf-8")
+                    except UnicodeDecodeError:
+                        ok = False
+                    if not ok:
+                        rep.violation("oracle", "a reported error span does not lie on character boundaries inside the expression", {"expr": e, "span": [a, b]}, impl=i["raw"][:200])
             continue
         if not s.startswith("ok"):
             rep.stats["other:" + s.split()[0]] += 1
